@@ -4,4 +4,5 @@ CONSTANTS
   CIDS = {"c1","c2","c3"}
   MaxOps = 8
   MaxOut = 2
+  HandoffOrdered = TRUE
 INVARIANTS E2EInv AllocInv ErrorKept
